@@ -159,4 +159,8 @@ def instances(tier):
             for rs_list in (True, False):
                 for ph in ("none", "unlisted") if rs_list else ("none",):
                     out.append(Instance("C01", "c01:u_mux", dict(k=k, form="const", phase=ph, rs_list=rs_list, offs=offs)))
+    from ..shapes import curated
+    for sid, shape in curated().items():
+        out.append(Instance("C01", "sys_common:s_run", dict(shape=shape, oracle="c01"), name="S/" + sid, uf=True,
+                            cover=["solved"], weight=20, max_paths=3000))
     return out, META
